@@ -33,14 +33,17 @@ def sonrs(mins, code="0"):
 _CACHE = {}
 
 
-def profile(mins, url, dtprofup="20200101000000.000[+0:UTC]", status="0", with_profrs=True):
-    key = (id(mins), url, status, with_profrs)
+ALL_MSGSETS = ("SIGNONMSGSET", "BANKMSGSET", "CREDITCARDMSGSET", "INVSTMTMSGSET", "PROFMSGSET", "SIGNUPMSGSET", "TAX1099MSGSET")
+
+
+def profile(mins, url, dtprofup="20200101000000.000[+0:UTC]", status="0", with_profrs=True, msgsets=ALL_MSGSETS, closingavail="Y"):
+    key = (id(mins), url, status, with_profrs, tuple(msgsets), closingavail)
     if key not in _CACHE:
-        _CACHE[key] = _profile(mins, url, "@@DTPROFUP@@", status, with_profrs)
+        _CACHE[key] = _profile(mins, url, "@@DTPROFUP@@", status, with_profrs, msgsets, closingavail)
     return _CACHE[key].replace("@@DTPROFUP@@", dtprofup)
 
 
-def _profile(mins, url, dtprofup, status, with_profrs):
+def _profile(mins, url, dtprofup, status, with_profrs, msgsets=ALL_MSGSETS, closingavail="Y"):
     ofx = ["OFX", None, [sonrs(mins)]]
     trn = copy.deepcopy(mins["PROFTRNRS"])
     setleaf(trn, ["STATUS", "CODE"], status)
@@ -49,13 +52,13 @@ def _profile(mins, url, dtprofup, status, with_profrs):
         prs = copy.deepcopy(mins["PROFRS"])
         msl = next(k for k in prs[2] if k[0] == "MSGSETLIST")
         msl[2] = []
-        for ms in ("SIGNONMSGSET", "BANKMSGSET", "CREDITCARDMSGSET", "INVSTMTMSGSET", "PROFMSGSET", "SIGNUPMSGSET", "TAX1099MSGSET"):
+        for ms in msgsets:
             m = copy.deepcopy(mins[ms])
             v1 = m[2][0]
             core = next(k for k in v1[2] if k[0] == "MSGSETCORE")
             setleaf(core, ["URL"], url)
             if ms in ("BANKMSGSET", "CREDITCARDMSGSET"):
-                setleaf(v1, ["CLOSINGAVAIL"], "Y")
+                setleaf(v1, ["CLOSINGAVAIL"], closingavail)
             msl[2].append(m)
         sil = next((k for k in prs[2] if k[0] == "SIGNONINFOLIST"), None)
         if sil is not None and not sil[2]:
